@@ -28,7 +28,6 @@ from .. import facts, tlc
 SEC_KEY = {"tag": "HedSectionKey.Tags", "unit": "HedSectionKey.Units", "unitClass": "HedSectionKey.UnitClasses",
            "unitModifier": "HedSectionKey.UnitModifiers", "valueClass": "HedSectionKey.ValueClasses",
            "attribute": "HedSectionKey.Attributes"}
-KEY_SEC = {v: k for k, v in SEC_KEY.items()}
 SEC_XML = {"unitClass": ("unitClassDefinitions", "unitClassDefinition"),
            "unitModifier": ("unitModifierDefinitions", "unitModifierDefinition"),
            "valueClass": ("valueClassDefinitions", "valueClassDefinition"),
@@ -253,7 +252,7 @@ def issue_key(i):
     return (str(sec), str(tag), str(i.get("ec_attribute") or ""), i.get("code"), int(i.get("severity", 1)), i.get("message", ""))
 
 
-def check_both(schema, patched=True):
+def check_both(schema):
     """(issues with warnings, issues without, [(section, name, exception)])"""
     raised = _G.setdefault("raised", [])
     del raised[:]
@@ -371,10 +370,20 @@ def make_seeds(f, S, dom, bump=None):
     ucs_with_units = [c for c, cd in f.unit_classes.items() if cd["units"]]
     prev_ids = {}
     if bump:
-        for p in pos:
-            h = p["attrs"].get("hedId")
-            if isinstance(h, list) and h and re.match(r"^HED_\d+$", h[0]):
-                prev_ids[(p["sec"], p["name"])] = int(h[0][4:])
+        # the previous released version of each library present: for the re-labelled library itself that is the bundled
+        # file; for the standard part of a partnered library it is the release before withStandard
+        own = f.library or "std"
+        prevs = {own: f}
+        if f.library and f.with_standard:
+            older = [v for v in known.get("std", []) if v < vt(f.with_standard)]
+            if older:
+                prevs["std"] = facts.load("%d.%d.%d" % tuple(older[-1]))
+        for lk, pf in prevs.items():
+            for q in positions(pf):
+                h = q["attrs"].get("hedId")
+                if isinstance(h, list) and h and re.match(r"^HED_\d+$", h[0]):
+                    prev_ids[(lk, q["sec"], q["name"])] = int(h[0][4:])
+    rooted_bases = {t["attrs"]["rooted"][0].casefold() for t in f.tags if isinstance(t["attrs"].get("rooted"), list)}
 
     def ev(p, fault, var, attr, values, op="set", group="mixed", **det):
         d = {"val": (values[0] if values else ""), "ver": [0, 0, 0], "num": 0, "numeric": True, "prev": 0, "cls": p["cls"], "lib": p["lib"]}
@@ -398,13 +407,16 @@ def make_seeds(f, S, dom, bump=None):
         sec, at, fv = p["sec"], p["attrs"], p["fv"]
         k = p["i"]
         if bump:        # version-bumped copy: only 'changed hedId' (the released version is the previous one and carries ids)
-            old = prev_ids.get((sec, p["name"]))
+            h = at.get("hedId")
             rng = S["ranges"].get(p["lib"])
-            if old is not None and "hedId" in dom[sec] and rng:
-                new = old + 1 if old + 1 <= rng[1] else old - 1
-                ev(p, "hedIdChanged", "changed", "hedId", ["HED_%07d" % new], group="changed", num=new, prev=old)
-                if k % 7 == 0:
-                    ev(p, "hedIdChanged", "ctl-same", "hedId", ["HED_%07d" % old], group="changed", num=old, prev=old)
+            if isinstance(h, list) and h and re.match(r"^HED_\d+$", h[0]) and "hedId" in dom[sec] and rng:
+                cur_id = int(h[0][4:])
+                old = prev_ids.get((p["lib"], sec, p["name"]), 0)
+                new = cur_id + 1 if cur_id + 1 <= rng[1] else cur_id - 1
+                # old = 0: the predecessor has no id for this entry -> TLC judges the case a compliant variant
+                ev(p, "hedIdChanged", "changed" if old else "ctl-no-predecessor-id", "hedId", ["HED_%07d" % new], group="changed", num=new, prev=old)
+                if k % 7 == 0 and old:
+                    ev(p, "hedIdChanged", "ctl-same", "hedId", ["HED_%07d" % cur_id], group="changed", num=cur_id, prev=old)
             continue
         # --- duplicated name
         if not fv["ph"]:
@@ -488,7 +500,10 @@ def make_seeds(f, S, dom, bump=None):
             ev(p, "badAllowedCharacter", "ctl-letters", "allowedCharacter", have + ["letters"], val="letters")
         # --- inLibrary, hedId
         if "inLibrary" in dom[sec]:
-            ev(p, "foreignInLibrary", "foreign", "inLibrary", ["foolib"], group="inlib")
+            if sec == "tag" and (p["short"].casefold() in rooted_bases or p["name"].casefold() in rooted_bases):
+                skipped["foreignInLibrary: standard tag that a library subtree is rooted at (the loader then refuses the schema: second fault)"] += 1
+            else:
+                ev(p, "foreignInLibrary", "foreign", "inLibrary", ["foolib"], group="inlib")
         rng = S["ranges"].get(p["lib"])
         if "hedId" in dom[sec] and rng:
             ev(p, "hedIdRange", "below", "hedId", ["HED_%07d" % (rng[0] - 1)], num=rng[0] - 1)
@@ -501,8 +516,7 @@ def pack_rounds(pos, seeds):
     """Rounds with at most one seed per position; kinds are rotated so that every round holds every kind."""
     by_group = collections.OrderedDict()
     for s in seeds:
-        g = s["group"] if s["group"] != "mixed" else "mixed"
-        by_group.setdefault(g, collections.OrderedDict()).setdefault(s["pi"], []).append(s)
+        by_group.setdefault(s["group"], collections.OrderedDict()).setdefault(s["pi"], []).append(s)
     rounds = []
     for g, perpos in by_group.items():
         n = max(len(q) for q in perpos.values())
@@ -510,7 +524,7 @@ def pack_rounds(pos, seeds):
             batch = []
             for pi, q in perpos.items():
                 if r < len(q):
-                    batch.append(q[(r + pi) % len(q)] if len(q) == n else q[r])
+                    batch.append(q[(r + pi) % len(q)])      # a permutation of q over r = 0 .. len(q) - 1
             rounds.append((g, r, batch))
     return rounds
 
@@ -572,14 +586,16 @@ def do_schema(args):
     rounds = [r for k, r in enumerate(rounds) if k % nshare == share]
     jobs = [{"version": version, "bump": bump, "round": "%s#%d" % (g, r), "seeds": batch} for g, r, batch in rounds if batch]
     results = [run_round(j) for j in jobs]
-    # a round that could not even be loaded: fall back to single seeds
-    for j, res in zip(jobs, results):
-        if res["load_raised"] and len(j["seeds"]) > 1:
-            res["obs"] = {}
-            for k, s in enumerate(j["seeds"]):
-                on, off, raised = single(version, bump, s)
-                res["obs"][k] = {"on": on, "off": off, "raised": raised}
-            res["load_raised"] = ""
+    # a round that could not even be loaded (or whose check raised outside the per-entry wrapper): bisect it
+    k = 0
+    while k < len(jobs):
+        if results[k]["load_raised"] and len(jobs[k]["seeds"]) > 1:
+            sd = jobs[k]["seeds"]
+            halves = [dict(jobs[k], seeds=sd[:len(sd) // 2]), dict(jobs[k], seeds=sd[len(sd) // 2:])]
+            jobs[k:k + 1] = halves
+            results[k:k + 1] = [run_round(h) for h in halves]
+        else:
+            k += 1
     evs, meta = events_of(S, results, jobs)
     rel = None
     if not bump and share == 0:
@@ -588,7 +604,8 @@ def do_schema(args):
         evs.append(rel)
     tag = "%s_%s_%d" % (version, bump or "rel", share)
     r, rej = run_tlc_trace(work, tag, S, evs)
-    out = {"version": version, "bump": bump, "n": len(evs), "states": r.distinct, "transitions": r.generated, "wall": r.wall,
+    out = {"version": version, "bump": bump, "n": len(evs), "share": share,
+           "distinct": len({(s_["sec"], s_["name"], s_["fault"], s_["var"], s_["attr"]) for _, s_, _ in meta}), "states": r.distinct, "transitions": r.generated, "wall": r.wall,
            "rounds": len(jobs), "total_rounds": total_rounds, "positions": len(pos), "dirty": len(dirty),
            "skipped": dict(skipped), "rej": [], "stray": collections.Counter(), "stray_ex": [],
            "faults": collections.Counter(), "released": rel, "sample": None}
@@ -625,7 +642,7 @@ def pick_quick(rounds, seed):
     for r in rounds:
         g = r[0]
         fam.setdefault("dep" if g.startswith("dep:") else ("dup" if g.startswith("dup") else g), []).append(r)
-    quota = {"mixed": 5, "dep": 3, "dup": 1, "inlib": 1, "changed": 1}
+    quota = {"mixed": 4, "dep": 2, "dup": 2, "inlib": 1, "changed": 1}
     out = []
     for g, rs in fam.items():
         n = min(len(rs), quota.get(g, 1))
@@ -648,16 +665,17 @@ def _setup_cache(work):
 
 # ----------------------------------------------------------------------------------------------- run / replay
 def vkey(rj):
+    """Class of failing input: failing clause, exception type, fault kind, then the misplaced attribute (its value rule
+    is what assumes a section) or section and library membership of the entry."""
     s = rj["seed"]
     if s is None:
         return "%s:%s" % (rj["why"], rj["version"])
     exc = ""
     if rj["why"] == "raises":
         exc = ":" + (rj["obs"].get("raised") or "?").split(":")[0]
-    k = "%s%s:%s:%s:%s" % (rj["why"], exc, s["fault"], s["sec"], "lib" if s["fv"]["lib"] else "std")
     if s["fault"] == "undeclaredAttr":
-        k += ":" + s["attr"]
-    return k
+        return "%s%s:%s:%s" % (rj["why"], exc, s["fault"], s["attr"] if s["var"] == "misplaced" else s["var"])
+    return "%s%s:%s:%s:%s" % (rj["why"], exc, s["fault"], s["sec"], "library-entry" if s["fv"]["lib"] else "standard-entry")
 
 
 def run(ctx):
@@ -669,12 +687,7 @@ def run(ctx):
                 "compliant control variants; thorough = all of them, quick = a seed-rotated sample of reload rounds; "
                 "distinct = (schema, entry, fault kind, variant); non-trivial = every seeded case (the schema is reloaded)")
     versions = [v for v, _ in facts.bundled() if v not in EXCLUDED]
-    # --- design runs
-    ctx.tlc("MC_Compliance", "MC_Compliance.cfg", workers=4, coverage=True, label="rule table: Deterministic, SpecCodesOnly, WarningsOffOnlyErrors")
-    for cfg in ("MC_Compliance_overlap.cfg", "MC_Compliance_gap.cfg"):
-        r = ctx.tlc("MC_Compliance", cfg, workers=2, expect_ok=False, label="sensitivity: broken rule table")
-        if r.violated != "Deterministic":
-            raise tlc.TLCFailure("sensitivity run %s did not violate Deterministic" % cfg)
+    # --- facts of the bundled schemas: Covered etc., and the domain table the seeder draws misplaced attributes from
     fpath = os.path.join(ctx.work, "facts.json")
     with open(fpath, "w") as fh:
         json.dump(model_facts(versions), fh)
@@ -687,7 +700,7 @@ def run(ctx):
     if set(dom) != set(versions) or any(len(d) != 6 for d in dom.values()):
         raise tlc.TLCFailure("domain table incomplete: %s" % {k: len(v) for k, v in dom.items()})
     _setup_cache(ctx.work)
-    # --- seeding
+    # --- seeding (worker processes) while the design runs of the rule table go on in this process
     plan = []
     for v in versions:
         plan.append((v, None))
@@ -696,8 +709,26 @@ def run(ctx):
             plan.append((v, bumped(v)))        # generated version pair: the released version becomes the predecessor (with ids)
     nshare = 1 if quick else 4
     jobs = [(v, b, dom[v], quick, ctx.seed, ctx.work, (1 if b else nshare), sh) for v, b in plan for sh in range(1 if b else nshare)]
+    design_err = []
+
+    def design():
+        try:
+            ctx.tlc("MC_Compliance", "MC_Compliance.cfg", workers=2, coverage=True,
+                    label="rule table: Deterministic, SpecCodesOnly, WarningsOffOnlyErrors")
+            for cfg in ("MC_Compliance_overlap.cfg", "MC_Compliance_gap.cfg"):
+                r = ctx.tlc("MC_Compliance", cfg, workers=2, expect_ok=False, label="sensitivity: broken rule table")
+                if r.violated != "Deterministic":
+                    raise tlc.TLCFailure("sensitivity run %s did not violate Deterministic" % cfg)
+        except Exception as ex:  # noqa
+            design_err.append(ex)
+    import threading
     with mp.get_context("fork").Pool(min(14, len(jobs))) as pool:
+        th = threading.Thread(target=design)
+        th.start()
         results = pool.map(do_schema, jobs, chunksize=1)
+        th.join()
+    if design_err:
+        raise design_err[0]
     drift = collections.Counter()
     drift_ex = {}
     stray = collections.Counter()
@@ -734,7 +765,7 @@ def run(ctx):
             _report(ctx, rj)
         for ex in res["stray_ex"]:
             drift_ex.setdefault("unattributed:" + str(ex[4]), ex)
-    ctx.nontrivial.update("%s|%d" % (r["version"] + str(r["bump"]), k) for r in results for k in range(r["n"]))
+    ctx.nontrivial.update("%s|%s|%d|%d" % (r["version"], r["bump"], r["share"], k) for r in results for k in range(r["distinct"]))
     ctx.note("cases_per_fault_and_section", dict(sorted(faults.items())))
     ctx.note("per_schema", per_schema)
     ctx.note("spec_drift", sum(drift.values()))
@@ -809,9 +840,15 @@ def replay(obj):
     _setup_cache(work)
     if obj.get("seed") is None:
         b_on, b_off, _ = baseline(obj["version"], None)
+        import shutil
+        shutil.rmtree(work, ignore_errors=True)
         errs = [(k[3], k[1]) for k in b_on if k[4] == 1]
         return (not errs), "released schema %s: error-severity issues %s" % (obj["version"], errs[:5])
-    on, off, raised = single(obj["version"], obj.get("bump"), obj["seed"])
+    try:
+        on, off, raised = single(obj["version"], obj.get("bump"), obj["seed"])
+    finally:
+        import shutil
+        shutil.rmtree(work, ignore_errors=True)
     ok, text = _judge(obj["why"], obj.get("code", ""), on, off, raised)
     return ok, "%s '%s' in %s, %s: %s (expected code %s)" % (obj["seed"]["sec"], obj["seed"]["name"], obj["version"],
                                                              obj["seed"]["fault"], text, obj.get("code") or "-")
